@@ -3,7 +3,6 @@ import re
 
 from hypothesis import strategies as st
 
-from ..core import exc_bucket
 from .. import fflex
 from ..fprog import gen, gen_long, harness
 
